@@ -84,9 +84,8 @@ INST_MPI = {
     "MMS":   ("mpi/make_solver.hpp:make_solver::params", {"precond": "MAMG", "solver": "CG"}, {}),
     "MSCHUR": ("mpi/schur_pressure_correction.hpp:schur_pressure_correction::params", {"usolver": "MMS", "psolver": "MMS"},
                {"pmask_size": "4", "pmask_pattern": ">2"}),
-    # params() leaves num_def_vec uninitialised and the constructor insists on def_vec (the driver supplies a callable)
-    "MSDD":  ("mpi/subdomain_deflation.hpp:subdomain_deflation::params", {"local": "AMG", "isolver": "CG", "dsolver": "EMPTY"},
-              {"num_def_vec": "3"}),
+    # the constructor insists on def_vec (the driver supplies a callable)
+    "MSDD":  ("mpi/subdomain_deflation.hpp:subdomain_deflation::params", {"local": "AMG", "isolver": "CG", "dsolver": "EMPTY"}, {}),
 }
 TOP = [k for k in INST if k != "MS2"]          # instances registered in the driver under their struct id
 TOP_MPI = list(INST_MPI)
@@ -297,6 +296,26 @@ def build_cases(ctx, data, defaults, tops, pfx):
     return lines, meta
 
 
+def meta_from_line(data, line, tops):
+    """expectations of a stored rt case, re-derived from the line itself (replay)"""
+    w = line.split(" ")
+    if len(w) < 4 or w[1] != "rt": return None
+    inst = next((i for i in tops if INST[i][0] == w[2]), None)
+    if inst is None: return None
+    sch = Schema(data, inst); tree = parse_tree(w[3])
+    setvals = {}; extras = []; exc = None
+    for pth, v in tree.leaves().items():
+        if pth in sch.values:
+            setvals[pth] = v
+            f = sch.values[pth][1]
+            if f["cls"] == "enum":
+                en = enum_names(data, f["type"])
+                if en and v not in en: exc = "invalid_argument"
+        elif pth not in sch.required and pth[:-1] in sch.structs and not any(q[:len(pth)] == pth for q in sch.structs):
+            extras.append(pth)
+    return dict(inst=inst, sid=w[2], setvals=setvals, extras=extras, exc=exc, note="replay", sch=sch)
+
+
 def probe_compile(ctx, code, tag):
     """compile a small probe against the current tree; returns (ok, first error line)"""
     d = os.path.join(ctx["verif"], ".cache", "cpp", "probe"); os.makedirs(d, exist_ok=True)
@@ -401,9 +420,10 @@ def run(ctx, cases_override=None):
             lines = [l for l in cases_override if l.split(" ", 2)[1:2] in (["rt"], ["ptree"]) and owner(l) == gi]
             # the stored defaults/schema tokens are part of the line; the python oracle is re-derived for
             # the struct's own instance when the line was generated by build_cases (same id scheme)
-            gen_lines, gen_meta = build_cases(ctx, data, defaults, tops, "pm" if gi else "ps")
-            by_line = dict((gl, gen_meta[gl.split(" ", 1)[0]]) for gl in gen_lines)
-            meta = dict((l.split(" ", 1)[0], by_line[l]) for l in lines if l in by_line)
+            meta = {}
+            for l in lines:
+                m = meta_from_line(data, l, tops)
+                if m: meta[l.split(" ", 1)[0]] = m
         else:
             lines, meta = build_cases(ctx, data, defaults, tops, "pm" if gi else "ps")
             if gi == 0: lines += ptree_cases(ctx)
@@ -452,6 +472,8 @@ def run(ctx, cases_override=None):
                               theorem="C14: every parameter is written back by the parameter export"))
         elif why == "accepted-by-check_params-but-never-read" and demo_accepted(ctx, a, b, fails, why):
             pass
+        elif why == "default-constructor-leaves-member-uninitialised" and demo_uninit(ctx, a, b, fails, why):
+            pass
         else:
             fails.append(dict(kind="counterexample", case="static: " + static_excerpt(ctx["repo"], data, a), impl=why, model=None, op="static",
                               size=1, sig=dict(struct=a, field=b), theorem="C14_A2 " + why))
@@ -478,6 +500,32 @@ def demo_accepted(ctx, sid, key, fails, why):
                 fails.append(dict(kind="counterexample", case=line, impl=o, op="rt", size=len(line), sig=dict(struct=sid, field=key),
                                   model="key %s is neither handed to AMGCL_PARAM_UNKNOWN nor imported/exported: silently dropped" % key,
                                   theorem="C14: a key that no component understands is reported through the unknown-parameter hook"))
+                return True
+    return False
+
+
+def demo_uninit(ctx, sid, key, fails, why):
+    """a builtin-typed member the default constructor does not initialise: import a tree without the key
+    under valgrind and show the read of the indeterminate value (plus the value that was exported)"""
+    import shutil
+    if not shutil.which("valgrind"): return False
+    for drv, tops in GROUPS:
+        for inst in tops:
+            if INST[inst][0] != sid: continue
+            t = T()
+            for k, v in INST[inst][2].items():
+                if k != key: t.force((k,)).data = v
+            line = "x0 rt %s %s" % (sid, t.tok())
+            p = subprocess.run(["timeout", "300", "valgrind", "-q", ctx["cpp"][drv]], input=line + "\n", stdout=subprocess.PIPE,
+                               stderr=subprocess.PIPE, text=True, env=dict(os.environ, OMP_NUM_THREADS="1"))
+            ctx["stats"]["oracle_checks"] += 1
+            vg = [l for l in p.stderr.split("\n") if "uninitialised" in l]
+            got = re.search(r"\b%s=([^\[]*)\[" % re.escape(key), p.stdout)
+            if vg:
+                fails.append(dict(kind="counterexample", case=line, op="rt", size=len(line), sig=dict(struct=sid, field=key),
+                                  impl="valgrind: %s; exported %s=%s" % (vg[0].split("==")[-1].strip(), key, got.group(1) if got else "?"),
+                                  model="a tree without the key must import the documented default: " + why,
+                                  theorem="C14: absent value parameters take their defaults (params().member is initialised)"))
                 return True
     return False
 
@@ -669,7 +717,8 @@ def rtstatic(ctx, cases_override=None):
             elif kind == "badenum":
                 if not o.startswith("RT EXC invalid_argument"): bad = "invalid enumeration text must raise std::invalid_argument"
             else:
-                if not o.endswith("| EQ") or " it=" not in o: bad = "run-time and compile-time solvers differ (iterations / residual / solution bits / unknown keys)"
+                if not o.endswith("| EQ"): bad = "run-time and compile-time solvers differ (iterations / residual / solution bits)"
+                elif " it=" not in o: pass       # the configuration throws the same exception kind through both interfaces
                 elif kind == "unknown" and [set(x.split()) for x in re.findall(r"U=\[(.*?)\]", o)] != [{extra}, {extra}]:
                     # (a struct deriving from another params struct checks the tree twice: the key may be listed twice)
                     bad = "unknown key %s not handed to AMGCL_PARAM_UNKNOWN" % extra
